@@ -25,6 +25,12 @@
 ; under contract opt in with `abstract_mul int64`; the constant operand comes second.
 (declare-fun umul64 ((_ BitVec 64) (_ BitVec 64)) (_ BitVec 64))
 
+;; block srem
+; signed 64-bit remainder by a non-constant divisor as an uninterpreted function;
+; every use site asserts 0 <= a, 0 < b ==> 0 <= r < b, which bvsrem satisfies
+; (sound abstraction; functions under contract opt in with `abstract_rem int`).
+(declare-fun srem64 ((_ BitVec 64) (_ BitVec 64)) (_ BitVec 64))
+
 ;; block mm3
 ; Cassandra org.apache.cassandra.utils.MurmurHash.hash3_x64_128 (seed 0), first word.
 ; The running state (h1,h2) is packed into 128 bits: h1 in the high half.
